@@ -13,6 +13,14 @@
                                      removal is awaited (the code after the intermediate fix 5ae760c)
      Dev = {"held", "sync_remove"}   held across the await, removal with remove_sync (the pinned tree in
                                      send_round_robin)
+     Dev = {"all_sync"}              the code since fix 47c1df1 (F40): nothing waits for a bucket asynchronously -
+                                     handshakes and calls take it with a blocking, brief lock, nobody holds it
+                                     across an await - so the lock is never handed to a suspended task
+   Pinned = TRUE is what tokio's scheduler really does with the hand-over: the task that is handed the
+   lock is woken by the releasing task and queued in THAT worker's own slot, from which no other
+   worker takes it; it runs when the releasing task gives the worker back.  If that task goes on to a
+   blocking wait for the same bucket instead, nobody ever runs the owner (F40: found by hunter agents
+   on the real runtime after this model, with Pinned = FALSE, had called two threads safe).
    With one worker thread a blocking wait can never be granted when a queued handshake was handed the
    lock: that task needs the thread the waiter occupies.  TLC finds that state for {"held",
    "sync_remove"} and shows it unreachable in the other two; with two threads it is merely a blocked
@@ -21,6 +29,7 @@
 EXTENDS Naturals, Sequences, FiniteSets, TLC
 CONSTANTS Hs,        \* handshake tasks
           Threads,   \* worker threads of the runtime
+          Pinned,    \* a task woken by a lock hand-over can only run on the worker of the task that released the lock
           Dev
 Call == "call"
 Tasks == Hs \cup {Call}
@@ -28,65 +37,86 @@ VARIABLES pc,        \* pc[t]
           owner,     \* task that holds the bucket lock, or "none"
           queue,     \* FIFO of tasks waiting for the lock
           onthread,  \* tasks currently occupying a worker thread (running, or blocked in a synchronous wait)
-          io         \* "pending" | "ok" | "err": the transport operation the call is waiting for
-vars == <<pc, owner, queue, onthread, io>>
+          io,        \* "pending" | "ok" | "err": the transport operation the call is waiting for
+          pin        \* pin[t]: the task whose worker has t in its own slot ("none": any free worker may run t)
+vars == <<pc, owner, queue, onthread, io, pin>>
 
 \* a task may take a step only while it occupies a thread; a suspended task (state ends in "_wait" / "await_io")
 \* holds no thread and is resumed by the scheduler when its wake-up condition holds
 Suspended(t) == pc[t] \in {"lock_wait", "await_io", "rm_wait"}
-Runnable(t) == \/ pc[t] \in {"start", "locked", "release", "forget", "rm_locked"}
+Runnable(t) == \/ pc[t] \in {"start", "locked", "release", "forget", "rm_locked", "forget2", "rm2_locked"}
                \/ (pc[t] = "lock_wait" /\ owner = t)          \* the lock was handed over: its waker fired
                \/ (pc[t] = "rm_wait" /\ owner = t)
                \/ (pc[t] = "await_io" /\ io # "pending")
 
 Init == /\ pc = [t \in Tasks |-> "start"] /\ owner = "none" /\ queue = <<>> /\ onthread = {} /\ io = "pending"
+        /\ pin = [t \in Tasks |-> "none"]
 
 Schedule(t) ==       \* a free worker thread picks up a runnable task
   /\ t \notin onthread /\ Runnable(t) /\ Cardinality(onthread) < Threads
-  /\ onthread' = onthread \cup {t} /\ UNCHANGED <<pc, owner, queue, io>>
+  /\ (pin[t] = "none" \/ pin[t] \notin onthread)         \* the worker that has t in its slot is free again
+  /\ onthread' = onthread \cup {t} /\ pin' = [pin EXCEPT ![t] = "none"] /\ UNCHANGED <<pc, owner, queue, io>>
 
-Release == IF queue = <<>> THEN owner' = "none" /\ UNCHANGED queue
-           ELSE owner' = Head(queue) /\ queue' = Tail(queue)      \* hand-over to the next waiter, suspended or blocked
+Release(r) == IF queue = <<>> THEN owner' = "none" /\ UNCHANGED <<queue, pin>>
+              ELSE /\ owner' = Head(queue) /\ queue' = Tail(queue)      \* hand-over to the next waiter, suspended or blocked
+                   /\ pin' = IF Pinned /\ pc[Head(queue)] \in {"lock_wait", "rm_wait"}
+                             THEN [pin EXCEPT ![Head(queue)] = r] ELSE pin   \* a suspended waiter is woken into r's worker's slot
 
 \* lock_async: take the lock or queue and give the thread back
 LockAsync(t, got, wait) ==
-  IF owner = "none" THEN owner' = t /\ pc' = [pc EXCEPT ![t] = got] /\ UNCHANGED <<queue, onthread>>
-  ELSE queue' = Append(queue, t) /\ pc' = [pc EXCEPT ![t] = wait] /\ onthread' = onthread \ {t} /\ UNCHANGED owner
+  IF owner = "none" THEN owner' = t /\ pc' = [pc EXCEPT ![t] = got] /\ UNCHANGED <<queue, onthread, pin>>
+  ELSE queue' = Append(queue, t) /\ pc' = [pc EXCEPT ![t] = wait] /\ onthread' = onthread \ {t} /\ UNCHANGED <<owner, pin>>
+\* a blocking lock: take it or queue and keep the thread
+LockSync(t, got, blocked) ==
+  IF owner = "none" THEN owner' = t /\ pc' = [pc EXCEPT ![t] = got] /\ UNCHANGED <<queue, onthread, pin>>
+  ELSE queue' = Append(queue, t) /\ pc' = [pc EXCEPT ![t] = blocked] /\ UNCHANGED <<owner, onthread, pin>>
 
 Step(t) ==
   /\ t \in onthread
-  /\ \/ /\ pc[t] = "start" /\ LockAsync(t, "locked", "lock_wait") /\ UNCHANGED io              \* get_async / upsert_async
-     \/ /\ pc[t] = "lock_wait" /\ owner = t /\ pc' = [pc EXCEPT ![t] = "locked"] /\ UNCHANGED <<owner, queue, onthread, io>>
+  /\ \/ /\ pc[t] = "start" /\ UNCHANGED io                                                     \* get_async / upsert_async - or, all_sync, the blocking forms
+        /\ IF "all_sync" \in Dev THEN LockSync(t, "locked", "lock_blocked") ELSE LockAsync(t, "locked", "lock_wait")
+     \/ /\ pc[t] = "lock_wait" /\ owner = t /\ pc' = [pc EXCEPT ![t] = "locked"] /\ UNCHANGED <<owner, queue, onthread, io, pin>>
+     \/ /\ pc[t] = "lock_blocked" /\ owner = t /\ pc' = [pc EXCEPT ![t] = "locked"] /\ UNCHANGED <<owner, queue, onthread, io, pin>>
      \/ /\ pc[t] = "locked" /\ t \in Hs                                                        \* upsert done: release
-        /\ Release /\ pc' = [pc EXCEPT ![t] = "done"] /\ onthread' = onthread \ {t} /\ UNCHANGED io
+        /\ Release(t) /\ pc' = [pc EXCEPT ![t] = "done"] /\ onthread' = onthread \ {t} /\ UNCHANGED io
      \/ /\ pc[t] = "locked" /\ t = Call /\ "held" \in Dev                                     \* send(..).await with the entry held
-        /\ pc' = [pc EXCEPT ![t] = "await_io"] /\ onthread' = onthread \ {t} /\ UNCHANGED <<owner, queue, io>>
+        /\ pc' = [pc EXCEPT ![t] = "await_io"] /\ onthread' = onthread \ {t} /\ UNCHANGED <<owner, queue, io, pin>>
      \/ /\ pc[t] = "locked" /\ t = Call /\ "held" \notin Dev                                  \* copy the shared entry out, release the bucket, then wait
-        /\ Release /\ pc' = [pc EXCEPT ![t] = "await_io"] /\ onthread' = onthread \ {t} /\ UNCHANGED io
-     \/ /\ pc[t] = "await_io" /\ io # "pending" /\ pc' = [pc EXCEPT ![t] = "release"] /\ UNCHANGED <<owner, queue, onthread, io>>
-     \/ /\ pc[t] = "release" /\ (IF "held" \in Dev THEN Release ELSE UNCHANGED <<owner, queue>>)  \* drop(peer) / nothing held
+        /\ Release(t) /\ pc' = [pc EXCEPT ![t] = "await_io"] /\ onthread' = onthread \ {t} /\ UNCHANGED io
+     \/ /\ pc[t] = "await_io" /\ io # "pending" /\ pc' = [pc EXCEPT ![t] = "release"] /\ UNCHANGED <<owner, queue, onthread, io, pin>>
+     \/ /\ pc[t] = "release" /\ (IF "held" \in Dev THEN Release(t) ELSE UNCHANGED <<owner, queue, pin>>)  \* drop(peer) / nothing held
         /\ IF io = "err" THEN pc' = [pc EXCEPT ![t] = "forget"] /\ UNCHANGED onthread
            ELSE pc' = [pc EXCEPT ![t] = "done"] /\ onthread' = onthread \ {t}
         /\ UNCHANGED io
      \/ /\ pc[t] = "forget" /\ UNCHANGED io
         /\ IF "sync_remove" \in Dev \/ "held" \notin Dev
-             THEN IF owner = "none" THEN owner' = t /\ pc' = [pc EXCEPT ![t] = "rm_locked"] /\ UNCHANGED <<queue, onthread>>
-                  ELSE queue' = Append(queue, t) /\ pc' = [pc EXCEPT ![t] = "rm_blocked"] /\ UNCHANGED <<owner, onthread>>   \* keeps the thread
+             THEN LockSync(t, "rm_locked", "rm_blocked")                                       \* keeps the thread
              ELSE LockAsync(t, "rm_locked", "rm_wait")
-     \/ /\ pc[t] = "rm_blocked" /\ owner = t /\ pc' = [pc EXCEPT ![t] = "rm_locked"] /\ UNCHANGED <<owner, queue, onthread, io>>
-     \/ /\ pc[t] = "rm_wait" /\ owner = t /\ pc' = [pc EXCEPT ![t] = "rm_locked"] /\ UNCHANGED <<owner, queue, onthread, io>>
-     \/ /\ pc[t] = "rm_locked" /\ Release /\ pc' = [pc EXCEPT ![t] = "done"] /\ onthread' = onthread \ {t} /\ UNCHANGED io
+     \/ /\ pc[t] = "rm_blocked" /\ owner = t /\ pc' = [pc EXCEPT ![t] = "rm_locked"] /\ UNCHANGED <<owner, queue, onthread, io, pin>>
+     \/ /\ pc[t] = "rm_wait" /\ owner = t /\ pc' = [pc EXCEPT ![t] = "rm_locked"] /\ UNCHANGED <<owner, queue, onthread, io, pin>>
+     \* the blocking forgetting is followed, without the task giving its thread back, by another blocking operation on the bucket
+     \* (the receiver goes on polling and meets the next ended stream; Drop clears the table after the last call)
+     \/ /\ pc[t] = "rm_locked" /\ Release(t) /\ UNCHANGED io
+        /\ IF "sync_remove" \in Dev \/ "held" \notin Dev THEN pc' = [pc EXCEPT ![t] = "forget2"] /\ UNCHANGED onthread
+           ELSE pc' = [pc EXCEPT ![t] = "done"] /\ onthread' = onthread \ {t}
+     \/ /\ pc[t] = "forget2" /\ LockSync(t, "rm2_locked", "rm2_blocked") /\ UNCHANGED io
+     \/ /\ pc[t] = "rm2_blocked" /\ owner = t /\ pc' = [pc EXCEPT ![t] = "rm2_locked"] /\ UNCHANGED <<owner, queue, onthread, io, pin>>
+     \/ /\ pc[t] = "rm2_locked" /\ Release(t) /\ pc' = [pc EXCEPT ![t] = "done"] /\ onthread' = onthread \ {t} /\ UNCHANGED io
 
-IoDone == io = "pending" /\ pc[Call] = "await_io" /\ io' \in {"ok", "err"} /\ UNCHANGED <<pc, owner, queue, onthread>>
+IoDone == io = "pending" /\ pc[Call] = "await_io" /\ io' \in {"ok", "err"} /\ UNCHANGED <<pc, owner, queue, onthread, pin>>
 
 Next == (\E t \in Tasks : Schedule(t) \/ Step(t)) \/ IoDone
 Spec == Init /\ [][Next]_vars /\ WF_vars(Next)
 
 AllDone == \A t \in Tasks : pc[t] = "done"
 \* the runtime is stuck: every thread is occupied by a task blocked in a synchronous wait, and the lock owner is not on a thread
-Stuck == /\ Cardinality(onthread) = Threads
-         /\ \A t \in onthread : pc[t] = "rm_blocked" /\ owner # t
-         /\ owner \notin onthread
+Blocked(t) == pc[t] \in {"rm_blocked", "rm2_blocked", "lock_blocked"} /\ owner # t
+Stuck == \/ /\ Cardinality(onthread) = Threads
+            /\ \A t \in onthread : Blocked(t)
+            /\ owner \notin onthread
+         \* the owner sits in the slot of a worker whose task waits for the owner (whatever the other workers do)
+         \/ /\ owner # "none" /\ owner \notin onthread /\ pin[owner] # "none"
+            /\ pin[owner] \in onthread /\ Blocked(pin[owner])
 NeverStuck == ~Stuck
 \* no task is ever suspended (off its thread) while it owns the bucket
 NoSuspendedOwner == owner = "none" \/ owner \in onthread \/ pc[owner] \in {"lock_wait", "rm_wait"}
